@@ -42,7 +42,7 @@ RULE = ("one case = one edit history of 5-60 steps (thorough: up to 110) on a po
         "model; kinds: BayesianNetwork (str or int node names, incl. latent flags), DAG/BayesianNetwork "
         "construction from acyclic / cyclic / self-loop edge lists, DynamicBayesianNetwork ((name, slice) nodes), "
         "MarkovNetwork, JunctionTree; ops add_node(s)/add_edge(s)/remove_node(s)/add_cpds|factors/"
-        "remove_cpds|factors/do/copy/get_random_cpds/check_model/get_cpds/query plus re-registration of a CPD after an edge into its node was added / removed (changed parent set or other parent order) and an aliasing probe (in-place "
+        "remove_cpds|factors/do/copy/get_random_cpds/check_model/get_cpds/query (each with its optional arguments: add_edge(weight=), add_edges_from(weights=[...], also of wrong length), add_node(weight=, latent=), add_nodes_from(weights=[...], latent=bool|list)) plus re-registration of a CPD after an edge into its node was added / removed (changed parent set or other parent order) and an aliasing probe (in-place "
         "marginalize/normalize of one attached CPD/factor through its handle) with ~25 % invalid arguments "
         "(cycle-closing edge, self loop, unknown node, foreign CPD variable, non-CPD object, backward / "
         "far-slice DBN edges, disjoint or unhashable cliques); cards 1-3; 6 names. non-trivial: >= 8 executed "
